@@ -112,7 +112,25 @@ def contains_yield(stmts):
     return False
 
 
+class GhostAssert(ast.stmt):
+    """a ghost assertion inserted by a sidecar fragment selector (never part of the real code): its
+    test is contract text over the current locals; it becomes an obligation `ghost[label]`"""
+    _fields = ()
+
+    def __init__(self, label, text, lineno=0):
+        self.label, self.text, self.lineno = label, text, lineno
+        self.col_offset = 0
+
+
 class StmtMixin(object):
+
+    def ex_GhostAssert(self, s, st):
+        val, facts = self.contract_bool(s.text, st)
+        self.add_oblig('ghost[%s]' % s.label, 'ghost', st, val, facts, line=s.lineno)
+        s2 = st.clone()
+        s2.pc.extend(facts)
+        s2.pc.append(val)
+        yield s2, NEXT
 
     def ex(self, stmts, st):
         if not stmts:
@@ -540,6 +558,13 @@ class StmtMixin(object):
 
     def havoc_value(self, v, name):
         """a fresh value of the same tag as v"""
+        if self.spec.hints.get('functional_lists') and (
+                (isinstance(v, SeqV) and v.kind == 'list') or (isinstance(v, PyListV) and all(is_intlike(i) for i in v.items))
+                or (isinstance(v, ListV) and v.tag == 'flist')):
+            n = fresh(name + '.len')
+            f = z3.Function('%s!%d' % (name, next(self._ids)), z3.IntSort(), z3.IntSort())
+            self.pending_facts.append(n >= 0)
+            return ListV(n, lambda i: IntV(f(i)), tag='flist')
         if isinstance(v, IntV):
             return IntV(fresh(name))
         if isinstance(v, BoolV):
@@ -550,6 +575,9 @@ class StmtMixin(object):
             return TupV([self.havoc_value(x, name) for x in v.items])
         if isinstance(v, SetV):
             return SetV(fresh(name, SetSort))
+        if isinstance(v, RefV) and v.kind == 'obj':
+            # some (other) object of the same class about which nothing is known
+            return RefV(self.new_id(), 'obj', v.cls)
         if isinstance(v, (NoneV, ConstV)):
             raise Unsupported('loop assigns %s whose entry value is %r: declare its sort in Loop(havoc=...)' % (name, v))
         if isinstance(v, UnionV):
@@ -570,7 +598,7 @@ class StmtMixin(object):
             v = s.loc.get(nm)
             if isinstance(v, RefV) and v.kind == 'list':
                 cur = s.heap[(v.id, 'val')]
-                if isinstance(cur, PyListV) and all(is_intlike(i) for i in cur.items):
+                if isinstance(cur, PyListV) and all(is_intlike(i) for i in cur.items) and not self.spec.hints.get('functional_lists'):
                     cur = SeqV(self.seq_of_items(cur.items), 'list')
                 if nm in names:
                     # rebinding of a list variable: new object
@@ -586,6 +614,9 @@ class StmtMixin(object):
                 s.heap[(cur.id, 'val')] = self.havoc_value(s.heap[(cur.id, 'val')], fld)
             else:
                 s.heap[(ref.id, fld)] = self.havoc_value(cur, fld)
+        if self.pending_facts:
+            s.pc.extend(self.pending_facts)
+            del self.pending_facts[:]
         if contains_yield(body) and s.out_n is not None:
             s.out_n = fresh('nout')
             s.out_arr = [fresh('out', z3.ArraySort(z3.IntSort(), z3.IntSort())) for _ in s.out_arr]
